@@ -299,6 +299,7 @@ class Ladder(Handler):
 
 
 def r3_ladder(ctx):
+    _clause_keyword_patterns(ctx)
     fn = ctx.fn(BR, "BranchingList.solve_case")
     top = [s for s in fn.body if isinstance(s, ast.If) and isinstance(s.test, ast.NamedExpr)]
     if len(top) != 1:
@@ -521,6 +522,39 @@ def r5_marker_stripping(ctx):
               detail={"pattern": pat, "digits": f"{lo}..{hi}"}, expected="[0-9]+ (clause numbers grow without bound: the 10th clause of a text is @10)")
     bl = ctx.fn(BR, "BranchingList.register_case")
     ctx.form("self.num_cases += 1" in norm(bl) and "return self.num_cases" in norm(bl), BR, "BranchingList.register_case", "clause numbers come from an increasing counter")
+
+
+def _clause_keyword_patterns(ctx):
+    """The line parser recognises `<path>@case` with one pattern and `<path>@else` / `<path>@end` with another.  A block
+    opened under a path has to be continued and closed under the same path, so every path prefix the first pattern
+    takes is taken by the second (decided on the two regular expressions, over a frozen table of prefixes)."""
+    import re as _re
+    from ..literal import Evaluator
+    rel = "src/scinumtools/dip/nodes/parser.py"
+    fn = ctx.fn(rel, "Parser.kwd_case")
+    mod = ctx.repo.module(rel)
+    pats = []
+    for c in ast.walk(fn):
+        if isinstance(c, ast.Call) and dotted_name(c.func) in ("re.match", "re.compile") and c.args:
+            try:
+                pats.append(Evaluator(ctx.repo, mod).ev(c.args[0]))
+            except AnalysisError:
+                pats.append(None)
+    case = [p_ for p_ in pats if isinstance(p_, str) and "@case" in p_]
+    other = [p_ for p_ in pats if isinstance(p_, str) and "@else" in p_ and "@end" in p_]
+    if len(case) != 1 or len(other) != 1:
+        ctx.form(False, rel, "Parser.kwd_case", "the two clause-keyword patterns are literals", detail=[str(p_)[:60] for p_ in pats])
+        return
+    rc, ro = _re.compile(case[0]), _re.compile(other[0])
+    bad = []
+    for prefix in ("", "a.", "group.sub.", "x-axis.", "b_c.d2.", "Plant-1.zone_b."):
+        if rc.match(prefix + "@case true"):
+            for kw in ("@else", "@end"):
+                m = ro.match(prefix + kw)
+                if not m or m.group(0) != prefix + kw:
+                    bad.append(f"{prefix}@case is recognised, {prefix}{kw} is not")
+    ctx.check(not bad, rel, "Parser.kwd_case", "every path that can open a block (`path@case`) can continue and close it (`path@else`, `path@end`)",
+              detail=bad or None, expected="the same path characters in both patterns")
 
 
 def r6_fresh_clause_state(ctx):
